@@ -1,7 +1,7 @@
 (** Extraction of the executable model (ExtrOcamlBasic only; Z stays inductive). *)
 From Coq Require Import Extraction ExtrOcamlBasic.
-From AwkV Require Import Layout Valid Types AtAxis Ops_Struct Carry Ops_Flatten Ops_Option Ops_Reduce Ops_Sort Ops_Getitem Ops_Fields Ops_GetitemAdv.
+From AwkV Require Import Layout Valid Types AtAxis Ops_Struct Carry Ops_Flatten Ops_Option Ops_Reduce Ops_Sort Ops_SortAxes Ops_Getitem Ops_Fields Ops_GetitemAdv.
 Extraction Language OCaml.
 Extraction "model.ml" Z.add Z.mul Z.sub Z.div Z.modulo Z.eqb Z.ltb Z.leb Z.of_nat Z.to_nat Z.opp
   to_list value_eqb valid_b clen type_of has_union minmax
-  num_model num_spec localindex_model localindex_spec rpad_model rpad_spec rpadclip_model rpadclip_spec flatten_model flatten_spec carry comb_model comb_spec fillna_model fillna_spec reduce_model reduce_spec resolve_axis sort_model sort_spec getitem_model getitem_spec setfield_model setfield_spec getitem_adv_spec jag_of_value.
+  num_model num_spec localindex_model localindex_spec rpad_model rpad_spec rpadclip_model rpadclip_spec flatten_model flatten_spec carry comb_model comb_spec fillna_model fillna_spec reduce_model reduce_spec resolve_axis sort_model sort_spec getitem_model getitem_spec setfield_model setfield_spec getitem_adv_spec jag_of_value sort_axes_model sort_model_all.
